@@ -185,6 +185,24 @@ theorem sendInput_ok {cfg : MCfg} {t : Table} (hw : WF t) (he : EnvOK cfg t) {ch
     | password => simpa [timedOut] using i6 rfl
     | silent => exact absurd rfl i5
 
+theorem escalateSecond_ok {cfg : MCfg} {t : Table} (hw : WF t) (he : EnvOK cfg t) (c : Cfg) {ch1 : Chan MDev} (i1 : DevOK t ch1.dev)
+    (l p : Level) : ChOK t (escalateSecond c (modeDev cfg) t ch1 l p).1 := by
+  -- the device may be pending here, so use exec_ok directly
+  unfold escalateSecond io
+  by_cases hcl : ch1.closed = true
+  · simp only [hcl, if_true]
+    exact ⟨i1, by intro h; rw [hcl] at h; cases h⟩
+  · have hcl' : ch1.closed = false := by simpa using hcl
+    obtain ⟨e1, e2, e3, _⟩ := exec_ok hw he i1 c.secondary (cfg := cfg)
+    simp only [hcl', Bool.false_eq_true, if_false, modeDev]
+    split
+    · rename_i hd
+      cases hr : (MDev.exec cfg t ch1.dev c.secondary).2 with
+      | prompt keys f => exact ⟨e1, fun _ => (e2 keys f hr).2.1⟩
+      | password => rw [hr] at hd; simp [eventDone] at hd
+      | silent => exact absurd hr e3
+    · exact ⟨e1, by intro h; simp [timedOut] at h⟩
+
 theorem escalateAuth_ok {cfg : MCfg} {t : Table} (hw : WF t) (he : EnvOK cfg t) (c : Cfg) {ch : Chan MDev} (hc : ChOK t ch)
     (l p : Level) : ChOK t (escalateAuth c (modeDev cfg) t ch l p).1 := by
   obtain ⟨i1, i2, i3, i4, i5, i6⟩ := io_ok hw he hc l.esc (cfg := cfg)
@@ -195,21 +213,14 @@ theorem escalateAuth_ok {cfg : MCfg} {t : Table} (hw : WF t) (he : EnvOK cfg t) 
   · rename_i ch1 r1
     simp only at i1 i2
     split
-    · -- event 2: run against a channel whose device is sane; it may be pending, so use exec_ok directly
-      unfold io
-      by_cases hcl : ch1.closed = true
-      · simp only [hcl, if_true]
-        exact ⟨i1, by intro h; rw [hcl] at h; cases h⟩
-      · have hcl' : ch1.closed = false := by simpa using hcl
-        obtain ⟨e1, e2, e3, _⟩ := exec_ok hw he i1 c.secondary (cfg := cfg)
-        simp only [hcl', Bool.false_eq_true, if_false, modeDev]
-        split
-        · rename_i hd
-          cases hr : (MDev.exec cfg t ch1.dev c.secondary).2 with
-          | prompt keys f => exact ⟨e1, fun _ => (e2 keys f hr).2.1⟩
-          | password => rw [hr] at hd; simp [eventDone] at hd
-          | silent => exact absurd hr e3
-        · exact ⟨e1, by intro h; simp [timedOut] at h⟩
+    · split
+      · -- event 1 ended on a completion pattern: a prompt, nothing pending
+        rename_i hbr
+        cases r1 with
+        | prompt keys f => exact ⟨i1, fun _ => (i4 keys f rfl).2.1⟩
+        | password => simp [endedOnComplete] at hbr
+        | silent => simp [endedOnComplete] at hbr
+      · exact escalateSecond_ok hw he c i1 l p
     · exact ⟨i1, by intro h; simp [timedOut] at h⟩
 
 theorem escalate_ok {cfg : MCfg} {t : Table} (hw : WF t) (he : EnvOK cfg t) (c : Cfg) {ch : Chan MDev} (hc : ChOK t ch)
